@@ -1,11 +1,13 @@
 ---------------------------- MODULE TlsAdmitCases ----------------------------
 (* Case enumeration for C19: the complete cross product configuration x peer  *)
-(* credential, one JSON line per case.  No expectation is printed: the        *)
-(* harness holds no oracle, TlsAdmitObs judges what the real endpoints did.   *)
+(* credential x what happens to the files after start-up, one line per case.  *)
+(* No expectation is printed: the harness holds no oracle, TlsAdmitObs judges *)
+(* what the real endpoints did.                                               *)
 (* Cases are enumerated for EVERY configuration, also those the code model    *)
 (* refuses at start-up, so a tree that wrongly starts them is still dialled.  *)
 EXTENDS TlsAdmitRules, TLC, Json
 VARIABLE x
-Init == x = 0 /\ \A c \in Cfgs : \A k \in Creds(c.role) : PrintT(ToJson([cfg |-> c, cred |-> k]))
+Init == x = 0 /\ \A c \in Cfgs : \A f \in Envs(c) : \A k \in Creds(c.role) :
+                      PrintT(ToJson([cfg |-> c, cred |-> k, after |-> f]))
 Next == UNCHANGED x
 =============================================================================
